@@ -34,7 +34,7 @@ func init() {
 }
 
 func c12Run(ctx *core.Ctx) {
-	ctx.Rule = "the complete configuration space: 5 extension flags x MaxMessageBytes {0, 1000} x MaxRecipients {0, 2} x TLS {none, available, active (implicit TLS), active with Server.TLSConfig unset (TLS listener handed to Serve)} x AllowInsecureAuth x backend {auth-capable, not} x {SMTP, LMTP} = 3072 configurations of the statement plus 1024 for the fourth TLS state; for each: EHLO/LHLO capability set compared (order-free, exact arguments) with a reference function written from the statement, HELO must list none, then one probe per extension (parameter accepted iff enabled, 504 iff disabled), STARTTLS, AUTH, SIZE=n+1, RCPTMAX and BDAT probes; after a successful AUTH, after a successful STARTTLS and after a STARTTLS whose handshake failed the capability set is checked again for the state the connection is then in. Non-trivial: every configuration; distinct by configuration."
+	ctx.Rule = "the complete configuration space: 5 extension flags x MaxMessageBytes {0, 1000} x MaxRecipients {0, 2} x TLS {none, available, active (implicit TLS), active with Server.TLSConfig unset (TLS listener handed to Serve)} (half of the TLS configurations supply the certificate only through GetCertificate) x AllowInsecureAuth x backend {auth-capable, not} x {SMTP, LMTP} = 3072 configurations of the statement plus 1024 for the fourth TLS state; for each: EHLO/LHLO capability set compared (order-free, exact arguments) with a reference function written from the statement, HELO must list none, then one probe per extension (parameter accepted iff enabled, 504 iff disabled), STARTTLS, AUTH, SIZE=n+1, RCPTMAX and BDAT probes; after a successful AUTH, after a successful STARTTLS and after a STARTTLS whose handshake failed the capability set is checked again for the state the connection is then in. Non-trivial: every configuration; distinct by configuration."
 	ctx.Exhaustive = true
 	ctx.Assumptions = []string{"AUTH= MAIL parameter on servers not advertising AUTH is not judged", "REQUIRETLS parameter on a plaintext connection of a server that enables it is not judged"}
 	core.RunCases(ctx, func(emit func(c12Case)) {
@@ -113,6 +113,11 @@ func c12Exec(ctx *core.Ctx, c c12Case) {
 			s.AllowInsecureAuth = c.Insecure
 			if c.TLS == "available" || c.TLS == "active" {
 				s.TLSConfig = wire.ServerTLS()
+				if c.UTF8 != c.DSN {
+					// half of the TLS configurations supply their certificate only through the
+					// GetCertificate callback
+					s.TLSConfig = wire.ServerTLSDynamic()
+				}
 			}
 		})
 		rig.BE.H.AuthMechs = func(int) []string { return []string{"VERIF", "OTHER"} }
